@@ -121,7 +121,7 @@ func fieldSel(info *types.Info, e ast.Expr, pkg, typ, field string) bool {
 }
 
 type Anchors struct {
-	P *Prog
+	P          *Prog
 	upWrappers map[*types.Func]*FuncBody
 
 	Run, RunTask, Status, Setup        *FuncBody
@@ -133,7 +133,7 @@ type Anchors struct {
 	BodyClosure                        *FuncBody // literal handed to the dedup function by RunTask
 	DedupCall                          *ast.CallExpr
 	DeferRunner                        *FuncBody
-	ShellExec                          *FuncBody // the function of the command runner's group that calls execext.RunCommand for a cmds entry (the command runner itself, or the helper it hands the shell execution to)
+	ShellExec                          *FuncBody   // the function of the command runner's group that calls execext.RunCommand for a cmds entry (the command runner itself, or the helper it hands the shell execution to)
 	BodyTail                           []*FuncBody // functions of the package the body closure hands its command loop to
 	LoopFn                             *FuncBody   // the function that contains the cmds loop: the body closure, or its tail
 	semParams                          map[*types.Var]bool
